@@ -73,7 +73,7 @@ def step (l : String) : String :=
     | none => "err"
     | some m =>
       let ep := match IndexMeta.getUint64 m IndexMeta.keyEpoch with
-        | .absent => "_" | .panic => "panic" | .val n => toString n
+        | .absent => "_" | .invalid => "invalid" | .val n => toString n
       s!"kind={showOpt (IndexMeta.get m IndexMeta.keyKind)} epoch={ep} root={showOpt (IndexMeta.get m IndexMeta.keyRootCid)} network={showOpt (IndexMeta.get m IndexMeta.keyNetwork)}"
   | ["fetch", _variant, c, _off, sz, bytes] =>
     -- `bytes` = what the CAR behind the epoch holds at [off, off+sz) (shorter if the file ends before)
